@@ -196,4 +196,95 @@ example :
       [(0x1000, 0x5000, 0x6000), (0x9000, 0x1000, 0xa000)] ∧
       c13All (some 0x9000) ls (aggregate (some 0x9000) ls) = true := by decide
 
+/-! ### the predicate evaluated on the implementation's output accepts the model's output -/
+
+theorem linesOk_tail (a : MLine) (l : List MLine) (h : linesOk (a :: l) = true) : linesOk l = true := by
+  cases l with
+  | nil => rfl
+  | cons b r => simp only [linesOk, Bool.and_eq_true] at h; exact h.2
+
+theorem linesOk_append_right (a b : List MLine) (h : linesOk (a ++ b) = true) : linesOk b = true := by
+  induction a with
+  | nil => simpa using h
+  | cons x xs ih => exact ih (linesOk_tail x (xs ++ b) h)
+
+/-- in a well-formed map, the line after a non-empty prefix starts at or after the prefix's last end
+    and is itself non-empty -/
+theorem linesOk_boundary (a : List MLine) (l hd : MLine) (t : List MLine)
+    (h : linesOk (a ++ hd :: t) = true) (hl : a.getLast? = some l) : l.e ≤ hd.s ∧ hd.s < hd.e := by
+  induction a with
+  | nil => simp at hl
+  | cons x xs ih =>
+    cases xs with
+    | nil =>
+      simp at hl; subst hl
+      simp only [List.cons_append, List.nil_append, linesOk, Bool.and_eq_true, decide_eq_true_eq] at h
+      have h2 := h.2
+      cases t with
+      | nil => simp only [linesOk, decide_eq_true_eq] at h2; exact ⟨h.1.2, h2⟩
+      | cons t0 ts => simp only [linesOk, Bool.and_eq_true, decide_eq_true_eq] at h2; exact ⟨h.1.2, h2.1.1⟩
+    | cons y ys =>
+      have hl' : (y :: ys).getLast? = some l := by simpa [List.getLast?_cons_cons] using hl
+      exact ih (linesOk_tail x _ h) hl'
+
+theorem hullOk_step (gate : Option Nat) (m : Mapping) (blk rest : List MLine) (ms : List Mapping)
+    (h1 : ∀ l ∈ blk, l.e ≤ m.end_) (h2 : ∀ hd t, rest = hd :: t → m.end_ < hd.e) :
+    hullOk gate (blk ++ rest) (m :: ms) = (blockOk gate m blk && hullOk gate rest ms) := by
+  have htw : (blk ++ rest).takeWhile (fun l => decide (l.e ≤ m.end_)) = blk := by
+    rw [List.takeWhile_append_of_pos (by intro l hl; simpa using h1 l hl)]
+    cases rest with
+    | nil => simp
+    | cons hd t =>
+      have := h2 hd t rfl
+      have : decide (hd.e ≤ m.end_) = false := by simp; omega
+      simp [List.takeWhile_cons, this]
+  have hdw : (blk ++ rest).dropWhile (fun l => decide (l.e ≤ m.end_)) = rest := by
+    rw [List.dropWhile_append_of_pos (by intro l hl; simpa using h1 l hl)]
+    cases rest with
+    | nil => simp
+    | cons hd t =>
+      have := h2 hd t rfl
+      have : decide (hd.e ≤ m.end_) = false := by simp; omega
+      simp [List.dropWhile_cons, this]
+  cases hb : blk ++ rest with
+  | nil =>
+    have hbn : blk = [] := (List.append_eq_nil_iff.mp hb).1
+    have hrn : rest = [] := (List.append_eq_nil_iff.mp hb).2
+    subst hbn; subst hrn
+    simp [hullOk, blockOk]
+  | cons x xs =>
+    rw [← hb]
+    conv => lhs; unfold hullOk
+    split
+    · rename_i heq; simp [hb] at heq
+    · rename_i ls m' ms' heq1 heq2
+      cases heq2
+      simp only [htw, hdw]
+    · rename_i heq; cases heq
+
+/-- **C13 (the check's predicate holds of the model).** The greedy block decomposition that the check
+    evaluates on the implementation's output accepts the model's output for every well-formed map: the
+    predicate demands nothing the theorem does not give. -/
+theorem C13_hullOk (gate : Option Nat) (ls : List MLine) (h : linesOk ls = true) :
+    hullOk gate ls (aggregate gate ls) = true := by
+  obtain ⟨gs, h1, h2, h3, h4⟩ := C13_ghost gate ls h
+  rw [h1, ← h2]
+  have hls : linesOk (gs.flatMap GM.blk) = true := by rw [h2]; exact h
+  clear h1 h2 h h4
+  induction gs with
+  | nil => simp [hullOk]
+  | cons g r ih =>
+    simp only [List.flatMap_cons, List.map_cons]
+    have hg := h3 g (List.mem_cons_self ..)
+    obtain ⟨l, hl, hle⟩ := hg.last
+    rw [hullOk_step gate g.m g.blk (r.flatMap GM.blk) (r.map GM.m)
+      (fun x hx => (hg.within x hx).2.1)
+      (by
+        intro hd t hrest
+        have hb := linesOk_boundary g.blk l hd t (by simpa [List.flatMap_cons, hrest] using hls) hl
+        omega)]
+    rw [GOk_blockOk gate g hg, Bool.true_and]
+    exact ih (fun x hx => h3 x (List.mem_cons_of_mem _ hx))
+      (linesOk_append_right g.blk _ (by simpa [List.flatMap_cons] using hls))
+
 end Mdw
